@@ -75,6 +75,21 @@ pub fn emit_read(sink: &mut Sink, cfg: &str, doc: &[u8], r: &mut Rng, tag: &str,
     }
 }
 
+/// `impl From<serde_json::Error> for io::Error`: an Io error gives back the injected kind, Syntax/Data become InvalidData,
+/// Eof becomes UnexpectedEof (error.rs); observed for errors of every category
+pub fn emit_ioconv(sink: &mut Sink, cfg: &str, doc: &[u8], r: &mut Rng) {
+    let (kn, kind) = *r.pick(KINDS);
+    let k = r.below(doc.len() + 1);
+    let cat = |e: &serde_json::Error| crate::obs::cat_name(e).to_string();
+    let conv = |e: serde_json::Error| { let c = cat(&e); let io: io::Error = e.into(); format!("{}:{}", c, kind_name(io.kind())) };
+    let delivered = std::cell::Cell::new(false);
+    let rd = FaultReader { data: doc, k, pos: 0, sizes: vec![5], i: 0, kind, intr: 0, clean: false, delivered: &delivered };
+    let a = match serde_json::from_reader::<_, Value>(rd) { Ok(_) => "OK".to_string(), Err(e) => conv(e) };
+    let b = match serde_json::from_slice::<Value>(&doc[..k]) { Ok(_) => "OK".to_string(), Err(e) => conv(e) };
+    let c = match serde_json::from_slice::<(i8, bool)>(doc) { Ok(_) => "OK".to_string(), Err(e) => conv(e) };
+    sink.case("ioconv", &[cfg, kn, &k.to_string(), &hexf(doc)], &format!("{}|{}|{}", a, b, c), "ioconv", true);
+}
+
 /// stream iterator over a faulty reader: the error is yielded once, then None
 pub fn emit_stream(sink: &mut Sink, cfg: &str, doc: &[u8], k: usize, r: &mut Rng) {
     let (kn, kind) = *r.pick(KINDS);
@@ -148,7 +163,7 @@ pub fn run(sink: &mut Sink, thorough: bool, seed: u64) {
     let mut r = Rng::new(seed);
     let cfg = cfg_tag();
     let mut docs: Vec<Vec<u8>> = vec![];
-    for d in ["[1,2]", "[1,2,]", "[1,2,3]", " [ 1 , 2 ] ", "{\"a\":[1,2],\"b\":[]}", "\"\\u00e9\\ud83d\\ude00\"", "[1,]", "01", "null", "[[[[1]]]]x", "1.5e3", "{\"a\" 1}", "[\"a\",true]", "[[],[],[]]", "[[] ,[] , [] ]"] {
+    for d in ["[1,2]", "[1,2,]", "[1,2,3]", " [ 1 , 2 ] ", "{\"a\":[1,2],\"b\":[]}", "\"\\u00e9\\ud83d\\ude00\"", "[1,]", "01", "null", "[[[[1]]]]x", "1.5e3", "{\"a\" 1}", "[\"a\",true]", "[[],[],[]]", "[[] ,[] , [] ]", "[1,true]", "[300,true]", "[1,2]", "[1]"] {
         docs.push(d.as_bytes().to_vec());
     }
     for _ in 0..(if thorough { 1500 } else { 150 }) { let d = gen_doc(&mut r, 3); docs.push(if r.chance(1, 4) { mutate(&d, &mut r) } else { d }); }
@@ -156,6 +171,7 @@ pub fn run(sink: &mut Sink, thorough: bool, seed: u64) {
         emit_read(sink, &cfg, d, &mut r, "doc", false);
         emit_read(sink, &cfg, d, &mut r, "doc", true);
         let k = r.below(d.len() + 1); emit_stream(sink, &cfg, d, k, &mut r);
+        emit_ioconv(sink, &cfg, d, &mut r);
     }
     // writer side: programs from the C03 generator
     for _ in 0..(if thorough { 3000 } else { 300 }) {
